@@ -15,6 +15,7 @@ type Env struct {
 	oldSt  *State
 	lookup func(name string) (TV, bool)
 	goal   bool // translating a proof goal: positive universal quantifiers are skolemised
+	inOld  bool // inside old(...): parameter names denote entry values
 }
 
 func (e *Env) withGoal(g bool) *Env {
@@ -27,7 +28,7 @@ func (e *Env) withGoal(g bool) *Env {
 }
 
 func (e *Env) child() *Env {
-	n := &Env{vars: map[string]TV{}, st: e.st, oldSt: e.oldSt, lookup: e.lookup, goal: e.goal}
+	n := &Env{vars: map[string]TV{}, st: e.st, oldSt: e.oldSt, lookup: e.lookup, goal: e.goal, inOld: e.inOld}
 	for k, v := range e.vars {
 		n.vars[k] = v
 	}
@@ -95,19 +96,21 @@ func (c *FnCtx) resolveId(name string, env *Env) (Term, types.Type) {
 	case "nil":
 		return "0", types.Typ[types.UntypedNil]
 	}
-	if tv, ok := env.vars[name]; ok {
-		if tv.Loc != nil {
-			return c.loadLoc(tv.Loc, env.st), tv.Ty
-		}
-		return tv.T, tv.Ty
-	}
-	if env.lookup != nil {
+	// inside a loop the current value of a source variable (a phi, or its last definition before
+	// the loop) takes precedence over the parameter of the same name; old(x) still denotes the entry value
+	if env.lookup != nil && !env.inOld {
 		if tv, ok := env.lookup(name); ok {
 			if tv.Loc != nil {
 				return c.loadLoc(tv.Loc, env.st), tv.Ty
 			}
 			return tv.T, tv.Ty
 		}
+	}
+	if tv, ok := env.vars[name]; ok {
+		if tv.Loc != nil {
+			return c.loadLoc(tv.Loc, env.st), tv.Ty
+		}
+		return tv.T, tv.Ty
 	}
 	if tv, ok := c.ghostEnv[name]; ok {
 		return tv.T, tv.Ty
@@ -416,6 +419,7 @@ func (c *FnCtx) trCall(e *Expr, env *Env) (Term, types.Type) {
 		ne := env.child()
 		ne.st = env.oldSt
 		ne.goal = goal
+		ne.inOld = true
 		return c.tr(e.Args[0], ne)
 	case "len":
 		a, at := arg(0)
